@@ -76,6 +76,7 @@ type Obligation struct {
 	Anc     map[int]bool
 	GhostRet map[string]string // ghost result witnesses (terms) at this return site
 	queryFile string
+	NoRetry     bool // no second, longer attempt (clauses declared with "check": expected not to hold)
 	GlobalWrite bool // frame obligation whose written location is rooted in a package-level variable
 }
 
